@@ -10,12 +10,15 @@ use std::hash::{Hash, Hasher};
 use std::sync::Mutex;
 use std::time::Instant;
 
-pub const VERIF_DIR: &str = "/verif";
+/// home of the verification tree: /verif, or $VERIF_HOME for background runs from a snapshot (vp run)
+pub fn verif_dir() -> String {
+    std::env::var("VERIF_HOME").unwrap_or_else(|_| "/verif".to_string())
+}
 
 /// where evidence and replay files go: /verif, or $VERIF_OUT (used when checks are run against mutated trees so
 /// that committed evidence is not overwritten)
 pub fn out_dir() -> String {
-    std::env::var("VERIF_OUT").unwrap_or_else(|_| VERIF_DIR.to_string())
+    std::env::var("VERIF_OUT").unwrap_or_else(|_| verif_dir())
 }
 
 #[derive(Clone, Copy, Debug, PartialEq, Eq)]
@@ -339,7 +342,7 @@ pub struct KnownFinding {
 }
 
 pub fn load_known() -> Vec<KnownFinding> {
-    let p = format!("{}/known_findings.json", VERIF_DIR);
+    let p = format!("{}/known_findings.json", verif_dir());
     match std::fs::read_to_string(&p) {
         Ok(s) => serde_json::from_str(&s).unwrap_or_default(),
         Err(_) => Vec::new(),
@@ -487,7 +490,7 @@ pub fn load_replay(path: &str) -> Result<Value, String> {
 
 /// committed regression cases of a property: /verif/regress/<ID>/*.json
 pub fn regress_files(id: &str) -> Vec<String> {
-    let dir = format!("{}/regress/{}", VERIF_DIR, id);
+    let dir = format!("{}/regress/{}", verif_dir(), id);
     let mut v: Vec<String> = match std::fs::read_dir(&dir) {
         Ok(rd) => rd.filter_map(|e| e.ok()).map(|e| e.path().to_string_lossy().to_string()).filter(|p| p.ends_with(".json")).collect(),
         Err(_) => Vec::new(),
@@ -508,13 +511,13 @@ pub fn boxed<C: std::fmt::Debug + 'static>(s: impl Strategy<Value = C> + 'static
 /// replay file the target wrote. Crashes without a VIOLATION line (OOM, tool failure) make the block inconclusive.
 pub fn fuzz_block(target: &str, runs: u64, seed: u64, max_len: u32) -> Block {
     let mut b = Block::new(&format!("libfuzzer_{}", target));
-    let fuzz_dir = format!("{}/fuzz", VERIF_DIR);
+    let fuzz_dir = format!("{}/fuzz", verif_dir());
     let rustflags = "--cfg rafalh_rust_fatfs_verif -A unexpected_cfgs";
     let build = std::process::Command::new("cargo")
         .args(["+nightly", "fuzz", "build", "-s", "none", "--fuzz-dir", &fuzz_dir, target])
         .env("RUSTFLAGS", rustflags)
         .env("CARGO_NET_OFFLINE", "true")
-        .current_dir(VERIF_DIR)
+        .current_dir(verif_dir())
         .output();
     match build {
         Ok(o) if o.status.success() => {}
@@ -557,7 +560,7 @@ pub fn fuzz_block(target: &str, runs: u64, seed: u64, max_len: u32) -> Block {
             .env("RUSTFLAGS", rustflags)
             .env("CARGO_NET_OFFLINE", "true")
             .env("VERIF_FUZZ_STATS", &stats)
-            .current_dir(VERIF_DIR)
+            .current_dir(verif_dir())
             .stdout(std::process::Stdio::null())
             .stderr(std::fs::File::create(scratch.join(format!("stderr{}.log", p))).map(std::process::Stdio::from).unwrap_or_else(|_| std::process::Stdio::null()))
             .spawn();
